@@ -232,6 +232,7 @@ def run(ctx: common.Ctx):
     batch_index_lambdas(ctx)
     c02.pad_symbolic(ctx, prop="C11")
     c02.batch_binop(ctx, prop="C11")
+    c02.batch_multiarg_elemwise(ctx, prop="C11")
     c02.batch_construct(ctx, prop="C11")
     batch_kernels_concrete(ctx)
     batch_kernels_symbolic(ctx)
